@@ -102,7 +102,9 @@ func Load(repo, trustedDir string, only map[string]bool) (*Loader, error) {
 		if err := ps.generate(trustedDir); err != nil {
 			return nil, err
 		}
-		overlay[ps.GenFile] = ps.GenBytes
+		for gfn, gb := range ps.GenFiles {
+			overlay[gfn] = gb
+		}
 		l.pkgSpecs[pkgPath] = ps
 		patterns = append(patterns, "./"+filepath.ToSlash(rel))
 	}
